@@ -164,6 +164,23 @@ def run_impl_solve_t(case, mixins=(), extra_kwargs=None):
     return tag + '|' + world_str(m, case['nE']), m, tag
 
 
+def run_impl_solve_period(case, mixins=(), extra_kwargs=None):
+    """Run the real solve_period on the period that `case['t']` denotes (span = range(n): label == position)."""
+    m = build_instance(case, mixins)
+    kw = opts_kwargs(case['opts'], case['tol'])
+    if extra_kwargs:
+        kw.update(extra_kwargs)
+    pos = case['t'] + case['n'] if case['t'] < 0 else case['t']
+    with warnings.catch_warnings():
+        warnings.simplefilter('ignore')
+        try:
+            r = m.solve_period(pos, **kw)
+            tag = 'ret:T' if r is True or (r is not False and bool(r)) else 'ret:F'
+        except Exception as e:  # noqa: BLE001
+            tag = exc_name(e)
+    return tag + '|' + world_str(m, case['nE']), m, tag
+
+
 def run_impl_solve(case, mixins=(), extra_kwargs=None, span=None, start=None, end=None):
     m = build_instance(case, mixins, span=span)
     m.__dict__['lags'] = case['lags']
